@@ -92,6 +92,46 @@ func dice(rng *rng.RNG) func(int) int {
 	}
 }
 
+// toInt converts a number to an int, refusing NaN, infinities and magnitudes that do not fit.
+func toInt(f float64) (int, error) {
+	if math.IsNaN(f) || f >= math.MaxInt64 || f <= math.MinInt64 {
+		return 0, fmt.Errorf("%v is not a valid integer", f)
+	}
+	return int(f), nil
+}
+
+// checkedRandomRange is randomRange for scripts: it reports invalid bounds as errors.
+func checkedRandomRange(rng *rng.RNG) func(float64, float64) (int, error) {
+	return func(lowerBound, upperBound float64) (int, error) {
+		lower, err := toInt(lowerBound)
+		if err != nil {
+			return 0, fmt.Errorf("invalid lower bound: %w", err)
+		}
+		upper, err := toInt(upperBound)
+		if err != nil {
+			return 0, fmt.Errorf("invalid upper bound: %w", err)
+		}
+		if upper < lower || upper-lower+1 <= 0 {
+			return 0, fmt.Errorf("invalid range [%d, %d]", lower, upper)
+		}
+		return randomRange(rng)(lower, upper), nil
+	}
+}
+
+// checkedDice is dice for scripts: it reports an invalid number of sides as an error.
+func checkedDice(rng *rng.RNG) func(float64) (int, error) {
+	return func(sides float64) (int, error) {
+		n, err := toInt(sides)
+		if err != nil {
+			return 0, fmt.Errorf("invalid number of sides: %w", err)
+		}
+		if n < 1 {
+			return 0, fmt.Errorf("a dice needs at least one side, got %d", n)
+		}
+		return dice(rng)(n), nil
+	}
+}
+
 // round rounds f to the nearest integer
 func round(f float64) float64 {
 	return math.Round(f)
